@@ -39,7 +39,8 @@ def gen_case(rng):
     elif r < 0.65:
       pre.append(G.gen_call(rng, rng.choice(regs), G.gen_enter(rng, rng.choice(scopes))))
     elif r < 0.75:
-      pre.append({'op': 'singleton', 'key': rng.choice(['s1', 's2', 'a/s1']), 'ctor': rng.random() < 0.85})
+      pre.append({'op': 'singleton', 'key': rng.choice(['s1', 's2', 'a/s1']), 'ctor': rng.random() < 0.85,
+                  '_via_cfg': rng.random() < 0.4})
     elif r < 0.9:
       cn = rng.choice(CONST_NAMES)
       pre.append({'op': 'constant', 'name': cn, 'nameValid': True,
